@@ -9,8 +9,9 @@ import Firefly.Gen.C16
 -/
 namespace Firefly.Ring
 
-/-- `ringBufferSize`, regenerated from the compiled code -/
-def N : Nat := Firefly.Gen.C16.ringBufferSize
+/-- `ringBufferSize`, regenerated from the compiled code (irreducible: proofs use it only through
+`N_eq_pow`, so nothing ever unfolds `x - 2047` in unary) -/
+@[irreducible] def N : Nat := Firefly.Gen.C16.ringBufferSize
 /-- `ringBufferSize - 1` -/
 def mask : Nat := N - 1
 /-- what the buffer can hold: one slot always stays free -/
